@@ -497,6 +497,18 @@ def rule_cachekey(ctx: Ctx, rule: str = "C07.cachekey"):
                       "wrapped by one functools.wraps decorator do not share a signature", mk.key, f"return {show(v)}",
                       components=[show(e) for e in elems])
     rep.floor(rule, "return paths of _make_key", n, 2)
+    # a bound method and the plain function it wraps have different signatures (the receiver is gone): whether the callable is
+    # bound is asked of the callable itself - `unwrap()` of a bound method is the innermost *plain* function
+    n_b = 0
+    for p in ctx.paths(mk, inline=None, exc_edges="none"):
+        for b in p.of("branch"):
+            t = expand(b.term, p.events)
+            if isinstance(t, ast.Call) and show(t.func) == "isinstance" and len(t.args) == 2 and "MethodType" in show(t.args[1]):
+                n_b += 1
+                rep.check("unwrap(" not in show(t.args[0]) and "__wrapped__" not in show(t.args[0]), rule, b.loc(),
+                          "bound methods are told apart from plain functions on the callable itself, not on what it wraps", mk.key,
+                          f"isinstance({show(t.args[0])}, MethodType)")
+    rep.floor(rule, "bound-method tests in _make_key", n_b, 1)
 
 
 def _resolution_pipeline(ctx):
